@@ -1,5 +1,5 @@
 #!/bin/bash
-# MANIFEST.setup_cmd: build every check once so that GOCACHE is warm. Offline.
+# MANIFEST.setup_cmd: build every registered check once so that GOCACHE is warm. Offline.
 set -u
 cd "$(dirname "$(readlink -f "$0")")"
 export GOFLAGS=-mod=mod GOPROXY=off GOSUMDB=off GOTOOLCHAIN=local
@@ -7,9 +7,13 @@ mkdir -p evidence replays
 out=$(mktemp -d /dev/shm/verif-setup.XXXXXX)
 trap 'rm -rf "$out"' EXIT
 rc=0
-for d in checks/*/; do
+for id in $(jq -r '.checks[].property_id' MANIFEST.json); do
+  d="checks/$(echo "$id" | tr 'A-Z' 'a-z')"
   if ls "$d"/*.go >/dev/null 2>&1; then
     go build -o "$out/$(basename $d)" "./$d" || rc=1
   fi
+  [ -x "$d/setup.sh" ] && { "$d/setup.sh" || rc=1; }
 done
+# the wuffs toolchain itself (used by the C-level checks)
+go build -o "$out/" github.com/google/wuffs/cmd/wuffs github.com/google/wuffs/cmd/wuffs-c github.com/google/wuffs/cmd/wuffsfmt || rc=1
 exit $rc
